@@ -243,7 +243,8 @@ type c18WireStream struct {
 	calls   int
 	failOff int // offset at which the first failed / short Write began; -1 = none
 	failErr string
-	mids    int
+	mids    int // Write calls (behind header and DataStreams) that left the stream inside a record
+	splits  int // ... of them the ones that began at a record boundary: records the code under test wrote in several Writes
 }
 
 func (s *c18WireStream) Read(p []byte) (int, error) { return s.inner.Read(p) }
@@ -279,6 +280,9 @@ func (s *c18WireStream) Write(p []byte) (int, error) {
 		mid, fromBoundary, records := s.tr.feed(p[:n])
 		if err == nil && mid && records >= 2 { // header and DataStreams are written before there is a second writer
 			s.mids++
+			if fromBoundary {
+				s.splits++
+			}
 			switch s.x.cfg.Hold {
 			case "first":
 				hold = fromBoundary
@@ -304,6 +308,12 @@ func (s *c18WireStream) snapshot() (wire []byte, failOff int, failErr string, ca
 	return append([]byte(nil), s.wire...), s.failOff, s.failErr, s.calls
 }
 
+func (s *c18WireStream) writePattern() (mids, splits int) {
+	s.mu.Lock()
+	defer s.mu.Unlock()
+	return s.mids, s.splits
+}
+
 // ---------------------------------------------------------------- one transfer
 
 type c18WireCfg struct {
@@ -317,6 +327,9 @@ type c18WireCfg struct {
 	Hold      string `json:"hold"`            // none | first | every-2 | every-3 | all
 	ShortUs   int    `json:"short_hold_us"`
 	Park      bool   `json:"park_fileend_writers"`
+	Large     bool   `json:"large_fields"`    // paths of 511..1024 bytes, a file of more than 4088 chunks (bitmap >= 512 bytes)
+	Partial   bool   `json:"partial_sidecar"` // large_fields: the many-chunk file is resumed from a partial sidecar in the output directory
+	NoLong    bool   `json:"no_long_paths"`   // large_fields: only the many-chunk file (what the receiver writes is judged behind a sender stream without large fields)
 	Seed      uint64 `json:"seed"`
 }
 
@@ -329,7 +342,17 @@ func (c c18WireCfg) class() string {
 	if c.Resume {
 		res = "resume"
 	}
-	return fmt.Sprintf("%s/P%d/%s/%s/hold=%s/park=%v", c.Transport, c.P, thr, res, c.Hold, c.Park)
+	cl := fmt.Sprintf("%s/P%d/%s/%s/hold=%s/park=%v", c.Transport, c.P, thr, res, c.Hold, c.Park)
+	if c.Large {
+		cl += "/large-fields"
+		if c.Partial {
+			cl += "/partial-sidecar"
+		}
+		if c.NoLong {
+			cl += "/bitmap-only"
+		}
+	}
+	return cl
 }
 
 type c18WireBegin struct {
@@ -347,6 +370,9 @@ type c18WireXfer struct {
 	recvCtl    *c18WireStream
 	sendTr     atomic.Pointer[c18Tracker]
 	done       chan struct{}
+	partKey    uint64 // large_fields + partial_sidecar: key of the file resumed from a sidecar the harness wrote ...
+	partBitmap []byte // ... and the bitmap of that sidecar
+	partLoaded atomic.Int64 // chunks the receiver found marked when it built the first FileResumeInfo of that file (Options.ResumeStatsFn); -1 = not announced
 
 	mu        sync.Mutex
 	begins    []c18WireBegin
@@ -485,6 +511,8 @@ type c18WireResult struct {
 	ParksCap     int64
 	MaxActive    int
 	Files        int
+	Mids         int // Writes of the sender's stream that ended inside a record
+	Splits       int // records of the sender's stream written in several Writes
 }
 
 func c18WireGenCfg(tier string, seed uint64, i int) c18WireCfg {
@@ -507,6 +535,18 @@ func c18WireGenCfg(tier string, seed uint64, i int) c18WireCfg {
 	c.Hold = []string{"first", "first", "all", "every-2", "every-3", "none"}[r.Intn(6)]
 	c.ShortUs = []int{100, 300, 1000}[r.Intn(3)]
 	c.Park = r.Intn(5) != 0
+	if i%8 == 1 || i%16 == 13 { // large fields (mock; i%16 == 13 over QUIC): long paths, a resume bitmap of 512 bytes and more
+		c.Large = true
+		c.Partial = r.Intn(3) != 0
+		c.NoLong = i%3 == 0
+		c.Resume = true
+		c.SmallThr = 1
+		c.ChunkSize = 16
+		c.Files = 5 + r.Intn(6)
+		if c.P > 4 {
+			c.P = 4
+		}
+	}
 	return c
 }
 
@@ -559,7 +599,90 @@ func c18WireMakeTree(cfg c18WireCfg, root string) error {
 			return err
 		}
 	}
-	return nil
+	if !cfg.Large {
+		return nil
+	}
+	// large fields. Paths around the sizes at which a writer may treat a field differently (511, 512), the
+	// longest legal path (1024) and one in between; a file of more than 4088 chunks, whose resume bitmap
+	// has 512 bytes or more.
+	for k, L := range []int{511, 512, 1024, 600 + r.Intn(401)} {
+		if cfg.NoLong {
+			break
+		}
+		rel := c18WireLongRel(cfg.Index, L, k)
+		full := filepath.Join(root, filepath.FromSlash(rel))
+		if err := os.MkdirAll(filepath.Dir(full), 0755); err != nil {
+			return err
+		}
+		buf := make([]byte, r.Intn(5*int(cs)))
+		vk.FillContent(cfg.Seed, rel, 0, buf)
+		if err := os.WriteFile(full, buf, 0644); err != nil {
+			return err
+		}
+	}
+	chunks := []int{4089, 4100 + r.Intn(200), 8200 + r.Intn(100)}[r.Intn(3)]
+	buf := make([]byte, int64(chunks-1)*cs+1+int64(r.Intn(int(cs))))
+	name := c18WireManyChunksName(cfg.Index)
+	vk.FillContent(cfg.Seed, name, 0, buf)
+	return os.WriteFile(filepath.Join(root, name), buf, 0644)
+}
+
+func c18WireManyChunksName(index int) string { return fmt.Sprintf("w%d-manychunks.bin", index) }
+
+// c18WireLongRel: a relative path of exactly L bytes (directories of up to 200 bytes, the leaf carries the case index).
+func c18WireLongRel(index, L, k int) string {
+	leaf := fmt.Sprintf("w%d-long%d-%d.bin", index, k, L)
+	budget := L - len(leaf) // directories, each followed by a slash
+	var parts []string
+	for budget > 0 {
+		n := budget - 1
+		if n > 200 {
+			n = 200
+		}
+		if budget-(n+1) == 1 {
+			n--
+		}
+		parts = append(parts, strings.Repeat(string(rune('d'+k)), n))
+		budget -= n + 1
+	}
+	return strings.Join(append(parts, leaf), "/")
+}
+
+// c18WirePartialSidecar puts the many-chunk file and a sidecar with about half of its chunks marked into the
+// output directory: the receiver's FileResumeInfo then carries a large bitmap with content. Returns the marked bitmap.
+func c18WirePartialSidecar(cfg c18WireCfg, m manifest.Manifest, src, out string) (key uint64, bitmap []byte, err error) {
+	r := vk.NewRng(cfg.Seed ^ 0x51dec4)
+	for _, it := range m.Items {
+		if it.IsDir || it.RelPath != c18WireManyChunksName(cfg.Index) {
+			continue
+		}
+		base := filepath.Join(out, m.Root)
+		data, rerr := os.ReadFile(filepath.Join(src, it.RelPath))
+		if rerr != nil {
+			return 0, nil, rerr
+		}
+		if err = os.MkdirAll(base, 0755); err != nil {
+			return 0, nil, err
+		}
+		if err = os.WriteFile(filepath.Join(base, it.RelPath), data, 0644); err != nil {
+			return 0, nil, err
+		}
+		sc, cerr := transfer.CreateSidecar(transfer.SidecarPath(base, "", transfer.VerifC19SidecarID(it)), it.ID, it.Size, cfg.ChunkSize)
+		if cerr != nil {
+			return 0, nil, cerr
+		}
+		total := transfer.VerifC19ChunkTotal(it.Size, cfg.ChunkSize)
+		for i := uint32(0); i < total; i++ {
+			if r.Intn(2) == 0 {
+				sc.MarkComplete(i)
+			}
+		}
+		if err = sc.Flush(); err != nil {
+			return 0, nil, err
+		}
+		return transfer.VerifC19FileKey(it), sc.MarshalBitmap(), nil
+	}
+	return 0, nil, errors.New("the many-chunk file is not in the manifest")
 }
 
 // c18WireStop is closed once c18WireAbort transfers have produced findings: the transfers still running are
@@ -616,6 +739,12 @@ func c18WireRun(work string, cfg c18WireCfg, lp *vk.ListenerPool) *c18WireResult
 	if res.SetupErr != "" {
 		return res
 	}
+	if cfg.Large && cfg.Partial {
+		if x.partKey, x.partBitmap, err = c18WirePartialSidecar(cfg, m, src, out); err != nil {
+			res.SetupErr = "partial sidecar: " + err.Error()
+			return res
+		}
+	}
 
 	ctx, cancel := context.WithCancel(context.Background())
 	defer cancel()
@@ -649,6 +778,15 @@ func c18WireRun(work string, cfg c18WireCfg, lp *vk.ListenerPool) *c18WireResult
 		OnFileStart: x.onFileStart,
 		ParamSource: func() transfer.RuntimeParams { return transfer.RuntimeParams{ChunkSize: cs, ParallelFiles: streams} }}
 	ropts := transfer.Options{Resume: cfg.Resume, HashAlg: "crc32c", ParallelFiles: streams}
+	x.partLoaded.Store(-1)
+	if x.partBitmap != nil {
+		many := c18WireManyChunksName(cfg.Index)
+		ropts.ResumeStatsFn = func(rel string, skipped, total, verified uint32, size int64, chunkSize uint32) {
+			if rel == many {
+				x.partLoaded.CompareAndSwap(-1, int64(skipped))
+			}
+		}
+	}
 
 	x.touch()
 	var sendErr, recvErr error
@@ -820,6 +958,22 @@ func c18WireDecode(wire []byte, failOff int, header bool, m *manifest.Manifest) 
 	return recs, hdrOK, nil
 }
 
+const (
+	c18WireLargePath          = "large/FileBegin.path>=512"
+	c18WireLargePathMax       = "large/FileBegin.path=1024"
+	c18WireLargeBitmap        = "large/recv/FileResumeInfo.bitmap>=512"
+	c18WireLargeBitmapPartial = "large/recv/FileResumeInfo.bitmap>=512/from-partial-sidecar"
+)
+
+func c18WirePopcount(b []byte) (n int) {
+	for _, v := range b {
+		for ; v != 0; v &= v - 1 {
+			n++
+		}
+	}
+	return n
+}
+
 func c18WireKindName(t byte) string {
 	for _, k := range c18Kinds {
 		if k != kHeader && c18TypeByte(k) == t {
@@ -841,6 +995,7 @@ func c18WireJudge(x *c18WireXfer, res *c18WireResult) {
 	// its next Write fails on the closed stream. Give that failure the chance to be recorded.
 	wire, failOff, failErr, calls := x.sendCtl.snapshot()
 	res.SendBytes, res.SendCalls = len(wire), calls
+	res.Mids, res.Splits = x.sendCtl.writePattern()
 	recs, hdrOK, f := c18WireDecode(wire, failOff, true, &x.m)
 	if f != nil && failOff < 0 && res.SendErr != "" {
 		for i := 0; i < 40 && failOff < 0; i++ {
@@ -862,6 +1017,15 @@ func c18WireJudge(x *c18WireXfer, res *c18WireResult) {
 	for _, rc := range recs {
 		res.Kinds[c18WireKindName(rc.Typ)]++
 		sig = append(sig, fmt.Sprintf("%02x", rc.Typ))
+		if fb, ok := rc.V.(transfer.FileBegin); ok {
+			switch n := len(fb.RelPath); {
+			case n == 1024:
+				res.Kinds[c18WireLargePathMax]++
+				fallthrough
+			case n >= 512:
+				res.Kinds[c18WireLargePath]++
+			}
+		}
 	}
 	h := fnv.New64a()
 	h.Write([]byte(strings.Join(sig, "")))
@@ -888,6 +1052,23 @@ func c18WireJudge(x *c18WireXfer, res *c18WireResult) {
 					rf = &c18WireFinding{}
 				}
 			case transfer.FileResumeInfo:
+				if len(v.Bitmap) >= 512 {
+					res.Kinds[c18WireLargeBitmap]++
+					// the receiver announced that it loaded the harness's sidecar (all of its marks) before it encoded the record
+					if v.StreamID == x.partKey && x.partBitmap != nil && x.partLoaded.Load() == int64(c18WirePopcount(x.partBitmap)) {
+						res.Kinds[c18WireLargeBitmapPartial]++
+						// chunks are only ever added: what the receiver encoded holds at least the bits of the sidecar it loaded
+						same := len(v.Bitmap) == len(x.partBitmap)
+						for i := 0; same && i < len(v.Bitmap); i++ {
+							same = v.Bitmap[i]&x.partBitmap[i] == x.partBitmap[i]
+						}
+						if !same && rf == nil {
+							add("receiver", &c18WireFinding{"records", fmt.Sprintf("the FileResumeInfo of the file resumed from a partial sidecar decodes to a bitmap (%d bytes) that does not hold the chunks of that sidecar (%d bytes)",
+								len(v.Bitmap), len(x.partBitmap)), map[string]any{"offset": rc.Off, "total_chunks": v.TotalChunks}})
+							rf = &c18WireFinding{}
+						}
+					}
+				}
 				if _, ok := x.keys[v.StreamID]; !ok && rf == nil {
 					add("receiver", &c18WireFinding{"records", fmt.Sprintf("the receiver's control stream carries a FileResumeInfo for key %d, which no file of the manifest has", v.StreamID), map[string]any{"offset": rc.Off}})
 					rf = &c18WireFinding{}
@@ -1022,7 +1203,8 @@ func c18WireCompare(x *c18WireXfer, res *c18WireResult, recs []c18WireRec, failO
 
 func runC18Wire(e *Env) {
 	R := e.R
-	R.Rule = "one case = one real transfer (SendManifestMultiStream -> RecvManifestMultiStream, 8-24 files, 2-8 workers, with and without resume requests) whose control streams are recorded " +
+	R.Rule = "one case = one real transfer (SendManifestMultiStream -> RecvManifestMultiStream, 8-24 files, 2-8 workers, with and without resume requests; one in six with large fields: paths of 511, 512, 600-1000 and 1024 bytes and a file of 4089-8300 chunks of 16 bytes, " +
+		"fresh or resumed from a partial sidecar, so that FileBegin records with paths >= 512 bytes and FileResumeInfo records with bitmaps >= 512 bytes travel) whose control streams are recorded " +
 		"in the order the bytes reached the transport; the recording of the sender's stream must decode from the first to the last byte into header, DataStreams and exactly the FileBegin / FileEnd / " +
 		"ResumeRequest / End records the run's events announce; distinct by (transport, workers, scheduling thresholds, resume, hold mode, order of record types on the stream)"
 	n := e.Pick(72, 700)
@@ -1067,6 +1249,8 @@ func runC18Wire(e *Env) {
 		Holds, HoldsDue, HoldsForeign, Parks, ParksByHold, ParksCap int64
 		SeveralActive                                         int
 		Bytes, Calls                                          int
+		Large, LargeBothOK                                    int
+		WritesEndedInsideARecord, RecordsSplitOverWrites      int64
 	}
 	var a agg
 	kinds := map[string]int{}
@@ -1105,6 +1289,14 @@ func runC18Wire(e *Env) {
 		a.ParksCap += res.ParksCap
 		a.Bytes += res.SendBytes
 		a.Calls += res.SendCalls
+		a.WritesEndedInsideARecord += int64(res.Mids)
+		a.RecordsSplitOverWrites += int64(res.Splits)
+		if res.Cfg.Large {
+			a.Large++
+			if res.BothOK {
+				a.LargeBothOK++
+			}
+		}
 		if res.MaxActive >= 2 {
 			a.SeveralActive++
 		}
@@ -1113,7 +1305,8 @@ func runC18Wire(e *Env) {
 		}
 		cs := map[string]any{"config": res.Cfg, "class": res.Cfg.class(), "files": res.Files, "sender_returned": res.SendErr, "receiver_returned": res.RecvErr,
 			"holds": res.Holds, "holds_with_a_released_fileend_writer": res.HoldsDue, "holds_ended_by_a_foreign_write": res.HoldsForeign,
-			"control_bytes_recorded": res.SendBytes, "control_write_calls": res.SendCalls, "max_files_in_flight": res.MaxActive}
+			"control_bytes_recorded": res.SendBytes, "control_write_calls": res.SendCalls, "max_files_in_flight": res.MaxActive,
+			"records_written_in_several_writes": res.Splits}
 		for _, f := range res.Findings {
 			R.Violate(f.Key, "several writers on one control stream ("+res.Cfg.class()+"): "+f.What, cs, f.Detail)
 		}
@@ -1148,10 +1341,29 @@ func runC18Wire(e *Env) {
 	R.Require(explained || a.Transfers >= n*9/10, fmt.Sprintf("only %d of %d transfers ran", a.Transfers, n))
 	R.Require(explained || a.BothOK >= n*8/10, fmt.Sprintf("only %d of %d transfers completed on both sides", a.BothOK, n))
 	R.Require(explained || a.SeveralActive >= n/2, fmt.Sprintf("only %d transfers had two or more files in flight at once", a.SeveralActive))
-	R.Require(explained || a.Holds >= int64(n)*5, fmt.Sprintf("only %d holds inside a half-written record", a.Holds))
-	R.Require(explained || a.HoldsDue >= int64(n)/4, fmt.Sprintf("only %d holds during which a worker that was about to write a FileEnd was let go", a.HoldsDue))
+	// A hold needs a record that the code under test writes in several Writes. How the sender splits its writes is
+	// not part of the property: the minimum number of holds follows the write pattern that was observed (a sender
+	// that hands every record to the stream in one Write offers nothing to hold; the decode / records oracles apply
+	// to its recording all the same).
+	needHolds, needDue := int64(n)*5, int64(n)/4
+	if a.RecordsSplitOverWrites/8 < needHolds {
+		needHolds = a.RecordsSplitOverWrites / 8
+	}
+	if a.RecordsSplitOverWrites < int64(n)*5 {
+		needDue = 0
+	}
+	R.SetExtra("holds_required_given_the_observed_write_pattern", map[string]int64{"records_split_over_several_writes": a.RecordsSplitOverWrites, "holds": needHolds, "holds_with_a_released_fileend_writer": needDue})
+	R.Require(explained || a.Holds >= needHolds, fmt.Sprintf("only %d holds inside a half-written record (%d records were written in several Writes)", a.Holds, a.RecordsSplitOverWrites))
+	R.Require(explained || a.HoldsDue >= needDue, fmt.Sprintf("only %d holds during which a worker that was about to write a FileEnd was let go", a.HoldsDue))
+	R.Require(explained || a.LargeBothOK >= a.Large*8/10 && a.Large >= n/10, fmt.Sprintf("only %d of %d large-field transfers (planned: %d) completed on both sides", a.LargeBothOK, a.Large, n/8))
+	for _, k := range []string{c18WireLargePath, c18WireLargePathMax, c18WireLargeBitmap, c18WireLargeBitmapPartial} {
+		R.Require(explained || kinds[k] > 0, "no "+k+" field was decoded from a recording")
+	}
 	for _, k := range []string{kHeader, kStreams, kFileBegin, kFileEnd, kResumeReq, kEnd, "recv/" + kFileDone, "recv/" + kResume} {
 		R.Require(explained || kinds[k] > 0, "no "+k+" record was decoded from a recording")
 	}
 	R.Require(explained || verifhook.Hits("send.fileEnd.before") > 0, "hook send.fileEnd.before never hit")
+
+	// a failing file: the harness plays the sender, the real receiver reports the file with a FileDone whose error text is long
+	c18WireDoneStage(e, e.Pick(16, 120), explained)
 }
